@@ -71,6 +71,7 @@ def run_session(case, ops=()):
             md = Fraction(mind, 2 ** case['fb'])
             kw['min_delta'] = int(md) if md.denominator == 1 else float(md)
             kw['min_npix'] = minn
+            impl.style_params(case, kw)
             c2 = dict(case)
             c2['crits'] = crits
             fs = impl.user_criteria(c2, unit)
@@ -92,7 +93,7 @@ def run_session(case, ops=()):
                 d.prune(**kw)
             # the criteria prune actually applies (0 inherits the recorded value)
             eff_d = mind if mind != 0 else impl.to_k(before['min_delta'], case['fb'])
-            eff_n = minn if minn != 0 else int(before['min_npix'])
+            eff_n = minn if minn != 0 else impl.npix_param(before['min_npix'])
             c3 = dict(case)
             c3['crits'] = crits
             line = 'prune crit=' + impl.crit_string(c3, mind=eff_d, minn=eff_n)
